@@ -46,6 +46,10 @@ pub struct Case {
     /// uid 1000 when the caller is root) before it became the caller
     #[serde(default)]
     pub warm: bool,
+    /// the earlier lookup in this process could not read the sysctl (ENOENT on
+    /// .../fs/protected_symlinks): that failure must not be remembered as a value
+    #[serde(default)]
+    pub poison: bool,
 }
 
 pub fn all_cases() -> Vec<Case> {
@@ -57,7 +61,10 @@ pub fn all_cases() -> Vec<Case> {
                     for caller in [(0u32, 0u32), (1000, 1000), (1001, 1001), (1001, 1000)] {
                         for position in [Position::TrailingFollow, Position::TrailingNofollow, Position::Intermediate, Position::OpenSubpath, Position::TrailingSlash, Position::TrailingDot, Position::TrailingChain, Position::NofollowSlash, Position::NofollowSlashes, Position::OpenNofollowSlash, Position::NofollowDot] {
                             for warm in [false, true] {
-                                v.push(Case { dir_mode, dir_owner, link_owner, caller, position, sysctl, warm });
+                                v.push(Case { dir_mode, dir_owner, link_owner, caller, position, sysctl, warm, poison: false });
+                            }
+                            if sysctl == 1 && matches!(position, Position::TrailingFollow | Position::NofollowSlash) {
+                                v.push(Case { dir_mode, dir_owner, link_owner, caller, position, sysctl, warm: true, poison: true });
                             }
                         }
                     }
@@ -235,7 +242,22 @@ pub fn child(case: &Case, kcfg: Kcfg) -> Report {
                 return rep;
             }
         }
-        let _ = run(kcfg);
+        if case.poison {
+            let hook: Hook = Box::new(|sys: &Sys, _c: &mut CallRec| if sys.paths.iter().any(|p| p.0.ends_with(b"protected_symlinks")) { Action::Errno(libc::ENOENT) } else { Action::Continue });
+            let policy = Policy { observe: false, kinds: false, hook: Some(hook), ..Policy::default() };
+            let _ = with_session(kcfg, Some(policy), |s| {
+                s.run(|wg, _st| {
+                    if let Ok(r) = open_root(&root, false) {
+                        wg.enter(1);
+                        let (_o, fd) = exec_op(&r, &op, false);
+                        drop(fd);
+                        wg.exit();
+                    }
+                })
+            });
+        } else {
+            let _ = run(kcfg);
+        }
         unsafe {
             if wuid != 0 && libc::syscall(libc::SYS_setresuid, -1i32, 0u32, -1i32) != 0 {
                 rep.setup_problem = Some(format!("seteuid(0): {}", errno_name(errno())));
@@ -324,7 +346,7 @@ pub fn judge(case: &Case, rep: &Report, stats: &mut Stats) -> Result<(), Fail> {
                 case.link_owner,
                 case.caller.0,
                 case.caller.1,
-                if case.warm { " (after the same lookup under another effective uid in this process)" } else { "" },
+                if case.poison { " (after a lookup in this process whose read of the sysctl failed with ENOENT)" } else if case.warm { " (after the same lookup under another effective uid in this process)" } else { "" },
                 case.position,
                 case.sysctl,
                 rep.oracle.brief(),
@@ -423,11 +445,11 @@ fn replay(_ctx: &Ctx, _check: &str, case: &Value) -> Result<(), Fail> {
 pub const PROP: Prop = Prop {
     id: "C15",
     level: "exploration",
-    rule: "the full finite product (enumerated: 2 x 5 x 3 x 3 x 4 x 11 x 2 = 7920 cases) of sysctl value {0,1} x directory mode {0755, 0777, 01777, 01775, 01755} x directory owner {0,1000,1001} x link owner {0,1000,1001} x caller {root, uid 1000, uid 1001, real 1001/effective 1000} x link position {trailing followed, trailing not followed, intermediate component, one-shot open, 'link/' , 'link/.', chain of two trailing links, and no-follow lookups of 'link/', 'link//', 'link/.' plus a one-shot O_NOFOLLOW|O_DIRECTORY open of 'link/'} x {fresh process; process that already did the same lookup under another effective uid}. The real fs.protected_symlinks is set (under a lock, restored on every exit path); each case runs in a child that builds the directory and link as root, becomes the caller, and then asks (a) the kernel itself: openat2(RESOLVE_IN_ROOT) as that user, (b) the library with openat2 -> ENOSYS (emulated walk), (c) in a separate process (the back-end is chosen once per process) the library's openat2 backend, for the fresh-process cases. Oracle: (b) and (c) equal (a): same object or same errno, EACCES exactly where the kernel says so. The documented rule (sticky & world-writable, link owner neither the caller's fsuid nor the directory owner) only classifies; its disagreement with the kernel is reported as model_disagreements. non-trivial = sticky world-writable directory and link not owned by the caller",
+    rule: "the full finite product (enumerated: 2 x 5 x 3 x 3 x 4 x 11 x 2 = 7920 cases, plus 360 in which the earlier lookup's read of the sysctl failed with ENOENT) of sysctl value {0,1} x directory mode {0755, 0777, 01777, 01775, 01755} x directory owner {0,1000,1001} x link owner {0,1000,1001} x caller {root, uid 1000, uid 1001, real 1001/effective 1000} x link position {trailing followed, trailing not followed, intermediate component, one-shot open, 'link/' , 'link/.', chain of two trailing links, and no-follow lookups of 'link/', 'link//', 'link/.' plus a one-shot O_NOFOLLOW|O_DIRECTORY open of 'link/'} x {fresh process; process that already did the same lookup under another effective uid}. The real fs.protected_symlinks is set (under a lock, restored on every exit path); each case runs in a child that builds the directory and link as root, becomes the caller, and then asks (a) the kernel itself: openat2(RESOLVE_IN_ROOT) as that user, (b) the library with openat2 -> ENOSYS (emulated walk), (c) in a separate process (the back-end is chosen once per process) the library's openat2 backend, for the fresh-process cases. Oracle: (b) and (c) equal (a): same object or same errno, EACCES exactly where the kernel says so. The documented rule (sticky & world-writable, link owner neither the caller's fsuid nor the directory owner) only classifies; its disagreement with the kernel is reported as model_disagreements. non-trivial = sticky world-writable directory and link not owned by the caller",
     assumptions: &["changes the system-wide fs.protected_symlinks for the duration of the run (serialised by a lock file, restored by guard, signal handler and by the next run if the process was killed)", "other checks are unaffected while it is 1: their links are owned by the caller"],
     lanes: |_| 1,
     run_lane,
     replay,
-    extra: Some(|_| json!({"exhaustive_scope": "all 7920 combinations"})),
+    extra: Some(|_| json!({"exhaustive_scope": "all 8280 combinations"})),
     exhaustive: true,
 };
